@@ -295,7 +295,14 @@ func cachingMonitor(k *CachingCase) []c.Hit {
 				add("phantom-hit:caching", want, "the replayed response was never handed to OnResponse")
 			case src.Method != o.Method || src.URL != o.URL ||
 				selectedValuation(&k.Conf, src.Params) != selectedValuation(&k.Conf, o.Params):
-				add("wrong-key-hit:caching", want, fmt.Sprintf("replayed the response of op for %s %s %s",
+				// F-C12d: strings.Join of name:value pairs is ambiguous when a selected
+				// name contains '.' or ':' or a selected value contains '.'
+				sig := "wrong-key-hit:caching"
+				if src.Method == o.Method && src.URL == o.URL &&
+					(!cleanSelected(&k.Conf, src.Params) || !cleanSelected(&k.Conf, o.Params)) {
+					sig = "wrong-key-hit:caching-join-ambiguous"
+				}
+				add(sig, want, fmt.Sprintf("replayed the response of op for %s %s %s",
 					src.Method, src.URL, selectedValuation(&k.Conf, src.Params)))
 			case o.At > src.At+ttl:
 				add("expired-hit:caching", fmt.Sprintf("op %d: no replay after %d (stored at %d + ttl %d)", i, src.At+ttl, src.At, ttl),
@@ -337,6 +344,13 @@ func cachingRecord(o *c.Out, k *CachingCase) {
 			}
 		}
 	}
+	unclean := 0
+	for _, op := range k.Ops {
+		if (op.Kind == "req" || op.Kind == "resp") && !cleanSelected(&k.Conf, op.Params) {
+			unclean++ // outside the side condition of C12_caching_same_selected_values_holds_outside_join_ambiguity
+		}
+	}
+	o.CountN("caching.calls_with_unclean_selected_pairs(F-C12d)", unclean)
 	o.Count(fmt.Sprintf("caching.len=%02d", len(k.Ops)))
 	o.CountN("caching.hits", hit)
 	o.CountN("caching.misses", miss)
